@@ -109,11 +109,13 @@ def _arr_map(a, fn):
 class Ctx:
     cur = None
 
-    def __init__(self, sched=(), assumptions=()):
+    def __init__(self, sched=(), assumptions=(), alts=()):
         self.pc = list(assumptions)
         self.sched = list(sched)
         self.pos = 0
-        self.alts = []            # per decision: was the other branch feasible too
+        # per decision: is the other branch feasible and still unexplored (scheduled prefix: carried over from the run
+        # that discovered the fork, so that an outer fork is not forgotten while an inner one is being exhausted)
+        self.alts = list(alts)
         self.solver = z3.Solver()
         self.solver.set('timeout', 20000)
         self.int_choices = []
@@ -172,9 +174,10 @@ def explore(fn, assumptions=(), max_paths=4096):
     """Run fn() once per feasible path.  Yields (path_condition_list, result).
     fn may raise; exceptions are yielded as results (instances of BaseException)."""
     sched = []
+    alts0 = []
     n = 0
     while True:
-        c = Ctx(sched, assumptions)
+        c = Ctx(sched, assumptions, alts0)
         Ctx.cur = c
         try:
             res = fn()
@@ -194,6 +197,7 @@ def explore(fn, assumptions=(), max_paths=4096):
             Ctx.cur = None
             return
         sched = full[:k] + [False]
+        alts0 = alts[:k] + [False]
         if n >= max_paths:
             Ctx.cur = None
             raise Unsupported(f'path budget {max_paths} exhausted')
